@@ -293,9 +293,14 @@ func (g *Gen) CoroutineProgram() *Chunk {
 	}
 	if g.R.Intn(6) == 0 {
 		yield := func(args ...Expr) Expr { return co("yield", args...) }
-		if g.R.Intn(3) == 0 {
+		switch g.R.Intn(4) {
+		case 0:
 			yield = func(args ...Expr) Expr { return CallN("hosty", args...) }
 			g.cover("co:host-function-yields")
+		case 1:
+			// (yields its arguments and two values of its own: more than it was given)
+			yield = func(args ...Expr) Expr { return CallN("hostymore", args...) }
+			g.cover("co:host-function-yields-more-than-its-arguments")
 		}
 		max := Num(float64(3 + g.R.Intn(4)))
 		switch g.R.Intn(7) {
@@ -340,6 +345,37 @@ func (g *Gen) CoroutineProgram() *Chunk {
 			g.cover("co:go-api-refusals")
 		}
 		g.cover("co:go-api-drive")
+	}
+	if g.R.Intn(8) == 0 {
+		b.Stmts = append(b.Stmts,
+			Local1("hm", co("create", Fn([]string{"p"}, false, Blk(
+				&SLocal{Names: []string{"r1", "r2"}, Exprs: []Expr{CallN("hostymore", N("p"))}},
+				CallSN("emit", Str("hm-got"), N("r1"), N("r2")),
+				&SLocal{Names: []string{"r3"}, Exprs: []Expr{CallN("hostymore")}},
+				Return(N("r3"), CallN("hostymore", Num(1), Num(2), Num(3))))))),
+			CallSN("emit", Str("hm1"), co("resume", N("hm"), Num(5))),
+			CallSN("emit", Str("hm2"), co("resume", N("hm"), Str("a"), Str("b"), Str("c"))),
+			CallSN("emit", Str("hm3"), co("resume", N("hm"), Str("d"))),
+			CallSN("emit", Str("hm4"), co("resume", N("hm"), Str("e"), Str("f"))),
+			CallSN("emit", Str("hm5"), co("status", N("hm"))),
+			&SGenFor{Names: []string{"x", "y", "z"}, Exprs: []Expr{co("wrap", Fn(nil, false, Blk(&SCall{Call: CallN("hostymore", Num(1))}, &SCall{Call: CallN("hostymore")})))}, Body: Blk(CallSN("emit", Str("hm-for"), N("x"), N("y"), N("z")))})
+		g.cover("co:hostymore-direct")
+	}
+	// a Go panic inside a host function called by a coroutine kills that coroutine and
+	// reaches its resumer like any error; an error that crosses two wrap boundaries
+	// arrives as the value that was raised
+	if g.R.Intn(6) == 0 {
+		b.Stmts = append(b.Stmts,
+			Local1("pco", co("create", Fn(nil, false, Blk(&SCall{Call: co("yield", Num(1))}, CallSN("hostpanic"), Return(Str("not-reached")))))),
+			CallSN("emit", Str("panic-co-1"), co("resume", N("pco"))),
+			CallSN("emit", Str("panic-co-2"), &EParen{X: co("resume", N("pco"))}, co("status", N("pco"))),
+			CallSN("emit", Str("panic-co-3"), &EParen{X: co("resume", N("pco"))}, co("running")),
+			CallSN("emit", Str("panic-wrap"), &EParen{X: CallN("pcall", co("wrap", Fn(nil, false, Blk(CallSN("hostpanic")))))}),
+			Local1("w2inner", co("wrap", Fn(nil, false, Blk(&SCall{Call: co("yield", Num(1))}, CallSN("error", &ETable{Items: []TItem{{Kind: TName, Name: "code", Val: Num(5)}}}))))),
+			Local1("w2outer", co("wrap", Fn(nil, false, Blk(&SWhile{Cond: &ETrue{}, Body: Blk(&SCall{Call: co("yield", Bin("*", Call(N("w2inner")), Num(2)))})})))),
+			CallSN("emit", Str("two-wraps"), Call(N("w2outer")), CallN("pcall", N("w2outer"))),
+			CallSN("emit", Str("two-wraps-after"), &EParen{X: CallN("pcall", N("w2outer"))}, &EParen{X: CallN("pcall", N("w2inner"))}))
+		g.cover("co:go-panic-and-two-wrap-errors")
 	}
 	// the Go API resumes a thread that a wrap function drove last: values and failure
 	// come back as the API documents them, not the way the wrap call would report them
